@@ -7,6 +7,7 @@ import (
 	"crypto/rsa"
 	"crypto/sha256"
 	"encoding/base64"
+	"encoding/json"
 	"fmt"
 	"net/http"
 	"net/http/httptest"
@@ -17,6 +18,7 @@ import (
 	"sync"
 	"time"
 
+	"github.com/mohae/deepcopy"
 	"github.com/ory/fosite"
 	"github.com/ory/fosite/compose"
 	"github.com/ory/fosite/handler/openid"
@@ -109,6 +111,7 @@ func (n *names) rewrite(s string) string {
 
 // hist is one history: a provider over a fresh recording store inside a synctest bubble.
 type hist struct {
+	jwtAT    bool           // access tokens are JWTs (cfg jwt=1)
 	pending  map[int]string // fault plan for the next endpoint operation (op "fault")
 	store    *recStore
 	cfg      *fosite.Config
@@ -179,20 +182,96 @@ func (h *hist) applyCfg(fs []string) {
 	}
 	cfg.DeviceVerificationURL = "https://as.example/device"
 	h.cfg = cfg
+	var store interface{} = h.store
 	if h.store.txMode {
 		// the same store, implementing storage.Transactional with real rollback
-		h.provider = compose.ComposeAllEnabled(cfg, txStore{h.store}, serverKey())
+		store = txStore{h.store}
+	}
+	h.jwtAT = fs != nil && kvGet(fs, "jwt") == "1"
+	if h.jwtAT {
+		// compose.ComposeAllEnabled with the JWT access-token strategy in place of the HMAC one (codes and
+		// refresh tokens stay HMAC tokens: NewOAuth2JWTStrategy delegates them)
+		keyGetter := func(context.Context) (interface{}, error) { return serverKey(), nil }
+		h.provider = compose.Compose(cfg, store,
+			&compose.CommonStrategy{
+				CoreStrategy:               compose.NewOAuth2JWTStrategy(keyGetter, compose.NewOAuth2HMACStrategy(cfg), cfg),
+				RFC8628CodeStrategy:        compose.NewDeviceStrategy(cfg),
+				OpenIDConnectTokenStrategy: compose.NewOpenIDConnectStrategy(keyGetter, cfg),
+				Signer:                     &jwt.DefaultSigner{GetPrivateKey: keyGetter},
+			},
+			compose.OAuth2AuthorizeExplicitFactory, compose.OAuth2AuthorizeImplicitFactory, compose.OAuth2ClientCredentialsGrantFactory,
+			compose.OAuth2RefreshTokenGrantFactory, compose.OAuth2ResourceOwnerPasswordCredentialsFactory, compose.RFC7523AssertionGrantFactory,
+			compose.RFC8628DeviceFactory, compose.RFC8628DeviceAuthorizationTokenFactory,
+			compose.OpenIDConnectExplicitFactory, compose.OpenIDConnectImplicitFactory, compose.OpenIDConnectHybridFactory,
+			compose.OpenIDConnectRefreshFactory, compose.OpenIDConnectDeviceFactory,
+			compose.OAuth2TokenIntrospectionFactory, compose.OAuth2TokenRevocationFactory,
+			compose.OAuth2PKCEFactory, compose.PushedAuthorizeHandlerFactory)
 	} else {
-		h.provider = compose.ComposeAllEnabled(cfg, h.store, serverKey())
+		h.provider = compose.ComposeAllEnabled(cfg, store, serverKey())
 	}
 }
 
-func (h *hist) newSession(sub string) *openid.DefaultSession {
-	return &openid.DefaultSession{
+// histSession is the application's session type: the OpenID Connect session plus the claims container the
+// JWT access-token strategy asks for (oauth2.JWTSessionContainer).  Used with both strategies.
+type histSession struct {
+	*openid.DefaultSession
+	JWTClaims *jwt.JWTClaims
+	JWTHeader *jwt.Headers
+}
+
+func (s *histSession) GetJWTClaims() jwt.JWTClaimsContainer {
+	if s.JWTClaims == nil {
+		s.JWTClaims = &jwt.JWTClaims{}
+	}
+	return s.JWTClaims
+}
+
+func (s *histSession) GetJWTHeader() *jwt.Headers {
+	if s.JWTHeader == nil {
+		s.JWTHeader = &jwt.Headers{}
+	}
+	return s.JWTHeader
+}
+
+func (s *histSession) Clone() fosite.Session {
+	if s == nil {
+		return nil
+	}
+	c := &histSession{}
+	if s.DefaultSession != nil {
+		c.DefaultSession = s.DefaultSession.Clone().(*openid.DefaultSession)
+	}
+	if s.JWTClaims != nil {
+		c.JWTClaims = deepcopy.Copy(s.JWTClaims).(*jwt.JWTClaims)
+	}
+	if s.JWTHeader != nil {
+		c.JWTHeader = deepcopy.Copy(s.JWTHeader).(*jwt.Headers)
+	}
+	return c
+}
+
+func emptySession() *histSession { return &histSession{DefaultSession: &openid.DefaultSession{}} }
+
+// oidcOf finds the OpenID Connect part of a session of either type
+func oidcOf(s fosite.Session) (*openid.DefaultSession, bool) {
+	switch x := s.(type) {
+	case *histSession:
+		if x.DefaultSession == nil {
+			x.DefaultSession = &openid.DefaultSession{}
+		}
+		return x.DefaultSession, true
+	case *openid.DefaultSession:
+		return x, true
+	}
+	return nil, false
+}
+
+func (h *hist) newSession(sub string) *histSession {
+	return &histSession{DefaultSession: &openid.DefaultSession{
 		Claims:  &jwt.IDTokenClaims{Subject: sub, Issuer: "https://as.example", RequestedAt: time.Now().UTC(), AuthTime: time.Now().UTC()},
 		Headers: &jwt.Headers{},
 		Subject: sub,
-	}
+	}}
 }
 
 // present builds the real credential string for a descriptor like "C0", "R1~r", "A0~s", "garbage", "foreign".
@@ -215,11 +294,20 @@ func (h *hist) present(desc string) string {
 	if !ok {
 		// stored but never delivered: nobody can present it; present something with that signature
 		full = "AAAA." + sig
+		if h.jwtAT && name[0] == 'A' {
+			full = "e30.e30." + sig
+		}
 		if mut == "" {
 			return full
 		}
 	}
-	randPart, sigPart, _ := strings.Cut(full, ".")
+	// "random" part and signature part: for a JWT access token header.payload and the signature
+	cut := strings.LastIndexByte(full, '.')
+	if cut < 0 {
+		return full
+	}
+	randPart, sigPart := full[:cut], full[cut+1:]
+	jwtShaped := strings.Count(full, ".") == 2
 	flip := func(s string, i int) string {
 		b := []byte(s)
 		if b[i] == 'A' {
@@ -233,6 +321,20 @@ func (h *hist) present(desc string) string {
 	case "":
 		return full
 	case "r":
+		if jwtShaped {
+			// the same token with one more claim in its payload (still a JSON object, so the verdict is about
+			// the signature and not about a payload that cannot be read)
+			hdr := strings.IndexByte(randPart, '.')
+			raw, err := base64.RawURLEncoding.DecodeString(randPart[hdr+1:])
+			var claims map[string]interface{}
+			if err == nil && json.Unmarshal(raw, &claims) == nil && claims != nil {
+				claims["altered"] = true
+				if out, err := json.Marshal(claims); err == nil {
+					return randPart[:hdr+1] + base64.RawURLEncoding.EncodeToString(out) + "." + sigPart
+				}
+			}
+			return flip(randPart, hdr+1+(len(randPart)-hdr-1)/2) + "." + sigPart
+		}
 		return flip(randPart, len(randPart)/2) + "." + sigPart
 	case "s":
 		return randPart + "." + flip(sigPart, len(sigPart)/2)
@@ -408,7 +510,7 @@ func (h *hist) execOp(ctx context.Context, f []string) string {
 				for _, a := range decList(f[4]) {
 					d.GrantAudience(a)
 				}
-				if sess, ok := d.GetSession().(*openid.DefaultSession); ok {
+				if sess, ok := oidcOf(d.GetSession()); ok {
 					sess.Subject = f[5]
 					if sess.Claims == nil {
 						sess.Claims = &jwt.IDTokenClaims{}
@@ -501,7 +603,7 @@ func (h *hist) execOp(ctx context.Context, f []string) string {
 			}
 			r.SetBasicAuth(url.QueryEscape(f[2]), url.QueryEscape(secret))
 		}
-		resp, err := h.provider.NewIntrospectionRequest(ctx, r, &openid.DefaultSession{})
+		resp, err := h.provider.NewIntrospectionRequest(ctx, r, emptySession())
 		switch {
 		case err != nil && errors.Is(err, fosite.ErrInactiveToken):
 			out = "inactive " + errWire(fosite.ErrInactiveToken)
@@ -513,7 +615,7 @@ func (h *hist) execOp(ctx context.Context, f []string) string {
 			out = fmt.Sprintf("active use=%s %s", resp.GetTokenUse(), h.store.renderReq(resp.GetAccessRequester()))
 		}
 	case "introspect":
-		tu, ar, err := h.provider.IntrospectToken(ctx, h.present(f[1]), fosite.TokenUse(f[2]), &openid.DefaultSession{}, decList(f[3])...)
+		tu, ar, err := h.provider.IntrospectToken(ctx, h.present(f[1]), fosite.TokenUse(f[2]), emptySession(), decList(f[3])...)
 		if err != nil {
 			out = "inactive " + errWire(err)
 		} else {
@@ -587,14 +689,14 @@ func (h *hist) execToken(ctx context.Context, form url.Values, clientID, cred st
 
 func (h *hist) execTokenWith(ctx context.Context, form url.Values, clientID, cred string, grantRequested bool) string {
 	r := h.tokenRequest(form, clientID, cred)
-	ar, err := h.provider.NewAccessRequest(ctx, r, &openid.DefaultSession{})
+	ar, err := h.provider.NewAccessRequest(ctx, r, emptySession())
 	if err != nil {
 		return "err " + errWire(err)
 	}
 	if grantRequested {
 		// what an application does between NewAccessRequest and NewAccessResponse: grant the requested
 		// scopes/audiences and complete the OpenID Connect claims with the authenticated subject
-		if sess, ok := ar.GetSession().(*openid.DefaultSession); ok && sess.Subject != "" {
+		if sess, ok := oidcOf(ar.GetSession()); ok && sess.Subject != "" {
 			if sess.Claims == nil {
 				sess.Claims = &jwt.IDTokenClaims{}
 			}
